@@ -143,7 +143,9 @@ def parse_model(line):
             steps.append({"evs": evs, "obs": obs[1] if len(obs) > 1 else "", "disk": disk[1] if len(disk) > 1 else "-"})
     fin = field(t, "final")
     final = {x[0]: x[1] for x in fin[1:] if isinstance(x, list)}
-    return {"id": t[1], "steps": steps, "stuck": stuck, "final": final}
+    ro = field(t, "reopen")
+    return {"id": t[1], "steps": steps, "stuck": stuck, "final": final,
+            "reopen": ro[1] if ro and len(ro) > 1 else "?"}
 
 
 def compare(trace, model):
